@@ -654,3 +654,75 @@ func displayStr(x value) string {
 	}
 	return fmt.Sprint(x)
 }
+
+// mapFind locates key in m, deciding equality with symbolic keys through the
+// solver (one branch per candidate entry) instead of enumerating the key's
+// values.  It returns the entry index or -1.
+func (fr *frame) mapFind(m *hashmap, key value) int {
+	if m == nil {
+		return -1
+	}
+	if !containsSym(key) && !m.hasSym {
+		return m.find(key)
+	}
+	for i, e := range m.ents {
+		if e.deleted {
+			continue
+		}
+		if !containsSym(key) && !containsSym(e.key) {
+			if equals(m.keyType, e.key, key) {
+				return i
+			}
+			continue
+		}
+		if fr.ps().branch(eqTerm(m.keyType, e.key, key)) {
+			return i
+		}
+	}
+	return -1
+}
+
+func (fr *frame) mapLookup(instr *ssa.Lookup, x, key value) value {
+	m, ok := x.(*hashmap)
+	if !ok {
+		return lookup(instr, x, key)
+	}
+	var v value
+	found := false
+	if i := fr.mapFind(m, key); i >= 0 {
+		v, found = m.ents[i].value, true
+	}
+	if !found {
+		v = zero(instr.X.Type().Underlying().(*types.Map).Elem())
+	}
+	if instr.CommaOk {
+		return tuple{v, found}
+	}
+	return v
+}
+
+func (fr *frame) mapUpdate(m *hashmap, key, v value) {
+	if i := fr.mapFind(m, key); i >= 0 {
+		m.ents[i].value = v
+		return
+	}
+	if containsSym(key) {
+		m.appendSym(key, v)
+		return
+	}
+	m.insert(key, v)
+}
+
+func (fr *frame) mapDelete(m *hashmap, key value) {
+	i := fr.mapFind(m, key)
+	if i < 0 {
+		return
+	}
+	e := m.ents[i]
+	if containsSym(e.key) {
+		e.deleted = true
+		m.length--
+		return
+	}
+	m.delete(e.key)
+}
